@@ -108,7 +108,18 @@ def gen_cases(pid, tier, seed):
             rows = rng.choice([max(1, nb - 2), nb, nb + 1])
             c["transform"] = [[cg.val(cg.dyadic(rng.uniform(-1, 1), 8)) for _ in range(nb)] for _ in range(rows)]
             nb = rows
-        c["P"] = density_matrix(rng, nb, "psd" if d % 2 == 0 else "indefinite").tolist()
+        Pm = density_matrix(rng, nb, "psd" if d % 2 == 0 else "indefinite")
+        if d % 4 == 3 and nb >= 2:
+            # symmetrised transition / difference densities: exact zeros on the diagonal of rows that carry off-diagonal
+            # elements, whole rows of zeros, and (every other time) no diagonal at all
+            for i_ in range(nb):
+                if rng.random() < 0.5 or d % 8 == 7:
+                    Pm[i_, i_] = 0.0
+            k_ = rng.randrange(nb)
+            if nb >= 3:
+                Pm[k_, :] = 0.0
+                Pm[:, k_] = 0.0
+        c["P"] = Pm.tolist()
         c["psd"] = d % 2 == 0
         pts = special_points(rng, basis, rng.randint(1, 6 if quick else 20))
         c["points"] = [[[x.numerator, x.denominator] for x in p] for p in pts]
